@@ -6,6 +6,7 @@ import O2P.Model.Jq
 import O2P.Model.Diagram
 import O2P.Model.Learn
 import O2P.Props.C07
+import O2P.Props.C14
 /-!
 Model driver: one JSON request per line on stdin, one JSON reply per line on stdout.
 Numbers that may exceed 2^53 travel as decimal strings.
@@ -512,6 +513,36 @@ def run (j : Json) : Except String Json := do
 
 end GraphOps
 
+namespace PVFileOps
+
+def valJson : O2P.PVFile.Val → Json
+  | .str s => Json.str s
+  | .list l => Json.arr (l.map Json.str).toArray
+
+def pveJson (e : O2P.PVFile.PVE) : Json :=
+  Json.mkObj [("jobId", e.jobId), ("eventId", e.eventId), ("eventType", e.typ), ("timestamp", e.timestamp),
+    ("previousEventIds", Json.arr (e.prev.map Json.str).toArray), ("applicationName", e.app), ("jobName", e.jobName)]
+
+def run (j : Json) : Except String Json := do
+  let c ← match (← strList (← getArr j "cfg")) with
+    | [a, b, c, d, e, f, g] => pure (⟨a, b, c, d, e, f, g⟩ : O2P.PVFile.Cfg)
+    | _ => throw "cfg needs seven names"
+  let evs ← (← getArr j "events").toList.mapM fun (e : Json) => do
+    let prev ← match e.getObjVal? "previousEventIds" with
+      | .ok (.arr a) => strList a
+      | _ => pure []
+    pure ({ jobId := ← _root_.getStr e "jobId", eventId := ← _root_.getStr e "eventId", typ := ← _root_.getStr e "eventType",
+            timestamp := ← _root_.getStr e "timestamp", prev, app := ← _root_.getStr e "applicationName",
+            jobName := ← _root_.getStr e "jobName" } : O2P.PVFile.PVE)
+  let saved := evs.map (O2P.PVFile.save c)
+  pure <| Json.mkObj [
+    ("saved", Json.arr (saved.map fun d => Json.mkObj (d.map fun (k, v) => (k, valJson v))).toArray),
+    ("loaded", Json.arr (saved.map fun d => match O2P.PVFile.load c d with
+      | .ok e => pveJson e
+      | .error m => Json.mkObj [("error", m)]).toArray)]
+
+end PVFileOps
+
 def handle (j : Json) : Except String Json := do
   let op ← getStr j "op"
   match op with
@@ -527,6 +558,7 @@ def handle (j : Json) : Except String Json := do
   | "dg.subset" => DgOps.opSubset j
   | "learn.ingest" => LearnOps.opIngest j
   | "graph.check" => GraphOps.run j
+  | "pvfile.roundtrip" => PVFileOps.run j
   | _ => throw s!"unknown op {op}"
 
 partial def loop (h : IO.FS.Stream) (out : IO.FS.Stream) : IO Unit := do
